@@ -101,6 +101,35 @@ theorem ids_exact_violated_copy :
       .insComp 0 0 ⟨9, some 2⟩, .copyFrom 0 1]).get 0) (by decide)
   exact absurd ((h1.same 3).mp (by decide)) (by decide)
 
+/-- VIOLATED (F29, drawPoints into another glyph's pen): as `ids_exact_violated_pen`, the outline
+coming from glyph 1. -/
+theorem ids_exact_violated_drawFrom :
+    ¬ IdsExactAfter [.insContour 1 0 ⟨some 1, [⟨.line, some 3⟩, ⟨.line, some 2⟩]⟩,
+                     .insAnchor 0 0 (some 2) false, .drawFrom 0 1 false] := by
+  intro h
+  have h1 := h ((run {} [.insContour 1 0 ⟨some 1, [⟨.line, some 3⟩, ⟨.line, some 2⟩]⟩,
+      .insAnchor 0 0 (some 2) false, .drawFrom 0 1 false]).get 0) (by decide)
+  exact absurd ((h1.same 3).mp (by decide)) (by decide)
+
+/-- VIOLATED (F29, deserialisation): identifier 2 is still held by an abandoned anchor; the
+deserialised contour is rejected at its second point, its identifiers 1 and 3 stay registered. -/
+theorem ids_exact_violated_deserialize :
+    ¬ IdsExactAfter [.insContour 1 0 ⟨some 1, [⟨.line, some 3⟩, ⟨.line, some 2⟩]⟩,
+                     .instAnchor 0 (some 2), .deserializeFrom 0 1] := by
+  intro h
+  have h1 := h ((run {} [.insContour 1 0 ⟨some 1, [⟨.line, some 3⟩, ⟨.line, some 2⟩]⟩,
+      .instAnchor 0 (some 2), .deserializeFrom 0 1]).get 0) (by decide)
+  exact absurd ((h1.same 3).mp (by decide)) (by decide)
+
+/-- VIOLATED (F29, reload): the same when the contour comes from the glyph's file. -/
+theorem ids_exact_violated_reload :
+    ¬ IdsExactAfter [.instAnchor 0 (some 2),
+                     .reload 0 { contours := [⟨some 1, [⟨.line, some 3⟩, ⟨.line, some 2⟩]⟩] }] := by
+  intro h
+  have h1 := h ((run {} [.instAnchor 0 (some 2),
+      .reload 0 { contours := [⟨some 1, [⟨.line, some 3⟩, ⟨.line, some 2⟩]⟩] }]).get 0) (by decide)
+  exact absurd ((h1.same 3).mp (by decide)) (by decide)
+
 -- non-vacuity: a reachable, settled, leak-free container with a non-trivial registry
 example : ((run {} [.insContour 0 0 ⟨some 1, [⟨.line, some 2⟩, ⟨.off, none⟩]⟩, .insAnchor 0 0 (some 3) true,
     .rmPoint 0 0 0]).get 0).reg = [1, 3] := by decide
@@ -164,135 +193,6 @@ theorem setIdent_reject_unchanged (cur : Option Id) (reg : List Id) (v : Option 
     cases v with
     | none => simp
     | some x => by_cases hx : x ∈ reg <;> simp [hx]
-
-/-- The single-object operations: everything that introduces one object or one identifier. -/
-def Op.single : Op → Bool
-  | .insContour .. | .reinsContour .. | .insPoint .. | .addPoint .. | .setContourId .. | .genContourId ..
-  | .genPointId .. | .insComp .. | .reinsComp .. | .setCompId .. | .genCompId .. | .insAnchor ..
-  | .reinsAnchor .. | .setAnchorId .. | .genAnchorId .. | .insGuide .. | .reinsGuide .. | .setGuideId ..
-  | .genGuideId .. => true
-  | _ => false
-
-theorem set_self {α : Type} {l : List α} {i : Nat} {a : α} (h : l[i]? = some a) : l.set i a = l := by
-  have hlt : i < l.length := by
-    rcases Nat.lt_or_ge i l.length with hlt | hge
-    · exact hlt
-    · rw [List.getElem?_eq_none hge] at h; cases h
-  have : l[i] = a := by rw [List.getElem?_eq_getElem hlt] at h; exact Option.some.inj h
-  rw [← this]; exact List.set_getElem_self hlt
-
-theorem put_get (w : World) (t : Nat) : w.put t (w.get t) = w := by
-  unfold World.put World.get
-  cases h : w.conts[t]? with
-  | none =>
-    have : w.conts.length ≤ t := by
-      rcases Nat.lt_or_ge t w.conts.length with hlt | hge
-      · rw [List.getElem?_eq_getElem hlt] at h; cases h
-      · exact hge
-    simp [List.set_eq_of_length_le this]
-  | some g =>
-    have hlt : t < w.conts.length := by
-      rcases Nat.lt_or_ge t w.conts.length with hlt | hge
-      · exact hlt
-      · rw [List.getElem?_eq_none hge] at h; cases h
-    have : w.conts[t] = g := by
-      rw [List.getElem?_eq_getElem hlt] at h; exact Option.some.inj h
-    simp [← this]
-
-private theorem on_unchanged (w : World) (t : Nat) (f : Glyph → Glyph × Res)
-    (hf : (f (w.get t)).2 = .err .assertion → (f (w.get t)).1 = w.get t)
-    (h : (w.on t f).2 = .err .assertion) : (w.on t f).1 = w := by
-  unfold World.on at h ⊢
-  simp only at h ⊢
-  rw [hf h]; exact put_get w t
-
-private theorem insertPoint_unchanged (g : Glyph) (ci idx : Nat) (p : Point)
-    (h : (insertPoint g ci idx p).2 = .err .assertion) : (insertPoint g ci idx p).1 = g := by
-  unfold insertPoint at h ⊢
-  cases hc : g.contours[ci]? with
-  | none => simp only
-  | some c =>
-    simp only [hc] at h ⊢
-    cases hp : p.id with
-    | none => simp [hp] at h
-    | some y =>
-      simp only [hp] at h ⊢
-      by_cases hy : y ∈ g.reg
-      · simp [hy]
-      · simp [hy] at h
-
-private theorem claim_unchanged (g : Glyph) (idx : Nat) (k : Comp) (v : Option Id) :
-    ((insertComp g idx k).2 = .err .assertion → (insertComp g idx k).1 = g) ∧
-    ((insertAnchor g idx v).2 = .err .assertion → (insertAnchor g idx v).1 = g) ∧
-    ((insertGuide g idx v).2 = .err .assertion → (insertGuide g idx v).1 = g) := by
-  refine ⟨?_, ?_, ?_⟩
-  · unfold insertComp; cases claimOpt g.reg k.id <;> simp
-  · unfold insertAnchor; cases claimOpt g.reg v <;> simp
-  · unfold insertGuide; cases claimOpt g.reg v <;> simp
-
-private theorem setter_unchanged (g : Glyph) (i : Nat) (v : Option Id) :
-    ((setContourId g i v).2 = .err .assertion → (setContourId g i v).1 = g) ∧
-    ((setCompId g i v).2 = .err .assertion → (setCompId g i v).1 = g) ∧
-    ((setAnchorId g i v).2 = .err .assertion → (setAnchorId g i v).1 = g) ∧
-    ((setGuideId g i v).2 = .err .assertion → (setGuideId g i v).1 = g) := by
-  refine ⟨?_, ?_, ?_, ?_⟩
-  · unfold setContourId
-    split
-    · intro _; rfl
-    · rename_i c hc
-      intro h
-      obtain ⟨h1, h2⟩ := setIdent_err (cur := c.id) (reg := g.reg) (v := v) (by simp only at h; rw [h]; simp)
-      simp only [h1, h2]
-      have hc' : ({ c with id := c.id } : Contour) = c := rfl
-      rw [hc', set_self hc]
-  · unfold setCompId
-    split
-    · intro _; rfl
-    · rename_i c hc
-      intro h
-      obtain ⟨h1, h2⟩ := setIdent_err (cur := c.id) (reg := g.reg) (v := v) (by simp only at h; rw [h]; simp)
-      simp only [h1, h2]
-      have hc' : ({ c with id := c.id } : Comp) = c := rfl
-      rw [hc', set_self hc]
-  · unfold setAnchorId
-    split
-    · intro _; rfl
-    · rename_i c hc
-      intro h
-      obtain ⟨h1, h2⟩ := setIdent_err (cur := c) (reg := g.reg) (v := v) (by simp only at h; rw [h]; simp)
-      simp only [h1, h2]
-      rw [set_self hc]
-  · unfold setGuideId
-    split
-    · intro _; rfl
-    · rename_i c hc
-      intro h
-      obtain ⟨h1, h2⟩ := setIdent_err (cur := c) (reg := g.reg) (v := v) (by simp only at h; rw [h]; simp)
-      simp only [h1, h2]
-      rw [set_self hc]
-
-private theorem gen_unchanged (g : Glyph) (i j : Nat) (cands : List Id) :
-    ((genContourId g i cands).2 = .err .assertion → (genContourId g i cands).1 = g) ∧
-    ((genPointId g i j cands).2 = .err .assertion → (genPointId g i j cands).1 = g) ∧
-    ((genCompId g i cands).2 = .err .assertion → (genCompId g i cands).1 = g) ∧
-    ((genAnchorId g i cands).2 = .err .assertion → (genAnchorId g i cands).1 = g) ∧
-    ((genGuideId g i cands).2 = .err .assertion → (genGuideId g i cands).1 = g) := by
-  refine ⟨?_, ?_, ?_, ?_, ?_⟩
-  · unfold genContourId
-    repeat' (first | split | dsimp only)
-    all_goals first | (intro _; rfl) | (intro h; simp at h)
-  · unfold genPointId
-    repeat' split
-    all_goals first | (intro _; rfl) | (intro h; simp at h)
-  · unfold genCompId
-    repeat' split
-    all_goals first | (intro _; rfl) | (intro h; simp at h)
-  · unfold genAnchorId
-    repeat' split
-    all_goals first | (intro _; rfl) | (intro h; simp at h)
-  · unfold genGuideId
-    repeat' split
-    all_goals first | (intro _; rfl) | (intro h; simp at h)
 
 /-- `reject_unchanged`: when an operation that introduces a single object or a single identifier
 (insertion or re-insertion of a contour, point, component, anchor or guideline; an identifier
@@ -415,7 +315,7 @@ example : (step (run {} [.insAnchor 0 0 (some 1) true, .insGuide 0 0 none false]
 /-- `makeRandomIdentifier(existing)` (candidates are inputs, at most 50 attempts): whatever it
 returns is one of the candidates and is not in `existing` — freshness is the retry loop's exit
 condition. -/
-theorem makeId_fresh' (existing : List Id) (fuel : Nat) (cands : List Id) (x : Id)
+theorem makeId_fresh_spec (existing : List Id) (fuel : Nat) (cands : List Id) (x : Id)
     (h : makeId existing fuel cands = .ok x) : x ∉ existing ∧ x ∈ cands :=
   ⟨makeId_fresh h, makeId_mem h⟩
 
